@@ -295,6 +295,50 @@ func c06Extreme(r *mon.Run) {
 		})
 	}
 	r.FloorFam("extreme-randomness", 10)
+	// one read of the random source FAILS: either party may refuse to go on; a run that completes all the same must end with a
+	// valid credential over the issuer's attributes
+	for _, blind := range [][]int{nil, {1}} {
+		failedDraws(r.Pick(12, 24), func(desc string, hit func() bool) {
+			attrs := []*big.Int{bi(4711), bi(42), bi(7)}
+			for _, b := range blind {
+				attrs[b] = nil
+			}
+			ctx, n1, n2, secret := bi(1), bi(987654322), bi(1234568), bi(1).Lsh(bi(1), 200)
+			var run *world.IssueRun
+			var err, ferr error
+			var icmOK bool
+			pv, _ := mon.Try(func() {
+				run, err = world.Issue(key, ctx, n1, n2, secret, nil, attrs, blind, nil)
+				if err == nil {
+					icmOK = run.Commit.Proofs.Verify([]*gabikeys.PublicKey{pk}, ctx, n1, false, nil)
+					ferr = run.Finish()
+				}
+			})
+			if !hit() {
+				return
+			}
+			d := fmt.Sprintf("blind=%v %s", blind, desc)
+			r.Distinct("failed-draw", d)
+			switch {
+			case pv != nil:
+				r.Eval("failed-draw", "panic") // a crash under a failing random source is outside this property
+			case err != nil || ferr != nil || run.Cred == nil:
+				r.Eval("failed-draw", "error")
+			default:
+				good := icmOK && refimpl.CLValid(pk, run.Cred.Signature, run.Cred.Attributes)
+				for i, a := range attrs {
+					if a != nil && (i+1 >= len(run.Cred.Attributes) || run.Cred.Attributes[i+1].Cmp(a) != 0) {
+						good = false
+					}
+				}
+				r.Eval("failed-draw", outcome(good, nil))
+				if !good {
+					r.Violation("C06/honest-run-fails/failed-draw", fmt.Sprintf("an issuance that completed without error although a read of the random source failed does not give a valid credential over the issuer's attributes (commitment verified=%v) (%s)", icmOK, d), map[string]any{"case": d})
+				}
+			}
+		})
+	}
+	r.FloorFam("failed-draw", 10)
 }
 
 func runC06(r *mon.Run) {
